@@ -362,3 +362,26 @@ def engine_direct_contains(leaf, p_root, tolerance=0.1):
     x, y = a * p_root[0] + c * p_root[1] + e, b * p_root[0] + d * p_root[1] + f
     polys = PG.flatten(cmds, tol=1e-3)
     return PG.winding((x, y), polys) != 0
+
+
+def has_retraced_edge(cmds, tol=1e-6):
+    """Does some straight segment of the path run back over (part of) another one of the same
+    subpath (collinear, opposite direction, overlapping)?  E.g. a two-point polygon."""
+    for sp in PG.interpret(cmds):
+        lines = [s_ for s_ in sp.segs if s_[0] == "L" and s_[1] != s_[2]]
+        for i in range(len(lines)):
+            for j in range(i + 1, len(lines)):
+                (a0, a1), (b0, b1) = lines[i][1:3], lines[j][1:3]
+                ax, ay = a1[0] - a0[0], a1[1] - a0[1]
+                bx, by = b1[0] - b0[0], b1[1] - b0[1]
+                la = math.hypot(ax, ay)
+                if abs(ax * by - ay * bx) > tol * la * math.hypot(bx, by):
+                    continue  # not parallel
+                if abs((b0[0] - a0[0]) * ay - (b0[1] - a0[1]) * ax) > tol * la * la:
+                    continue  # not collinear
+                if ax * bx + ay * by >= 0:
+                    continue  # same direction
+                ta = sorted((((b0[0] - a0[0]) * ax + (b0[1] - a0[1]) * ay) / (la * la), ((b1[0] - a0[0]) * ax + (b1[1] - a0[1]) * ay) / (la * la)))
+                if ta[1] > tol and ta[0] < 1 - tol:
+                    return True
+    return False
